@@ -1057,7 +1057,38 @@ def rw_closann(fi, args, spec=None):
     return [(toks[b1].start, toks[j].start, f'|{var}: {pty}| -> (r: {rty}){sp} {{ {body} }}', 'R-CLOSANN')]
 
 
+def rw_hoistend(fi, args, spec=None):
+    """R-HOISTEND K: `for P in A..B {` -> `let __eK = B; for P in A..__eK {` (the range end is evaluated once before
+    the loop in Rust; Verus cannot relate a non-pure end expression to the loop counter)."""
+    toks = fi.toks
+    src = fi.sf.src
+    edits = []
+    for a in args:
+        lp = fi.loops[int(a)]
+        if lp['kind'] != 'for':
+            raise LostAnchor(f'fn {fi.item.name}: R-HOISTEND on a non-for loop')
+        j = lp['kw'] + 1
+        while not is_id(toks[j], 'in'):
+            j += 1
+        k = j + 1
+        dd = None
+        while k < lp['open']:
+            if toks[k].kind == 'punct' and toks[k].text in ('(', '['):
+                k = match_close(toks, k)
+            elif is_p(toks[k], '.') and is_p(toks[k + 1], '.') and toks[k + 1].start == toks[k].end:
+                dd = k
+                break
+            k += 1
+        if dd is None or is_p(toks[dd + 2], '='):
+            raise LostAnchor(f'fn {fi.item.name}: R-HOISTEND needs a half-open range')
+        hi = src[toks[dd + 2].start:toks[lp['open']].start].strip()
+        edits.append((toks[lp['start']].start, toks[lp['start']].start, f'let __e{a} = {hi}; ', 'R-HOISTEND'))
+        edits.append((toks[dd + 2].start, toks[lp['open']].start, f'__e{a} ', 'R-HOISTEND'))
+    return edits
+
+
 REWRITES = {
+    'R-HOISTEND': rw_hoistend,
     'R-CLOSANN': rw_closann,
     'R-ITERMUT': rw_itermut,
     'R-INTOVEC': rw_intovec,
